@@ -135,3 +135,19 @@ REGISTRY.add(Contract(
     canaries=["result[0] == 0.0"],
     replay="c07:cpu_times_percent_calculate",
     note="per-field shares within [0,100] adding up to 100 whenever any time elapsed, however short"))
+
+
+# --- known-finding regions (predicates over the contract's input symbols) ----------------------------
+
+def region_subsecond_total(cfg):
+    n = int(cfg.split("=")[1])
+    terms = []
+    for k in nonguest(n):
+        f = SCPU_FIELDS[k]
+        d = f"(- t2_{f} t1_{f})"
+        terms.append(f"(ite (> {d} 0.0) {d} 0.0)")
+    total = "(+ " + " ".join(terms) + ")"
+    return f"(and (> {total} 0.0) (< {total} 1.0))"
+
+
+REGIONS = {"subsecond_total": region_subsecond_total}
